@@ -814,3 +814,62 @@ func VerifReadRemoteState(m *Memberlist, body []byte) (bool, []VerifPushNodeStat
 func VerifSendPingAndWaitForAck(m *Memberlist, addr, name string, seqNo uint32, deadline time.Time) (bool, error) {
 	return m.sendPingAndWaitForAck(Address{Addr: addr, Name: name}, ping{SeqNo: seqNo, Node: name}, deadline)
 }
+
+// ---- member selection helpers of util.go ----
+
+// VerifSelNode describes one member record as moveDeadNodes / kRandomNodes see it.
+type VerifSelNode struct {
+	Name  string
+	State NodeStateType
+	Age   time.Duration // time since the record's last state change
+}
+
+func verifSelStates(in []VerifSelNode) []*nodeState {
+	now := time.Now()
+	out := make([]*nodeState, len(in))
+	for i, d := range in {
+		out[i] = &nodeState{Node: Node{Name: d.Name, State: d.State}, State: d.State, StateChange: now.Add(-d.Age)}
+	}
+	return out
+}
+
+func verifSelNames(in []*nodeState) []string {
+	out := make([]string, len(in))
+	for i, n := range in {
+		out[i] = n.Name
+	}
+	return out
+}
+
+// VerifMoveDeadNodes runs moveDeadNodes; it returns the rearranged names and the returned index.
+func VerifMoveDeadNodes(in []VerifSelNode, window time.Duration) ([]string, int) {
+	ns := verifSelStates(in)
+	idx := moveDeadNodes(ns, window)
+	return verifSelNames(ns), idx
+}
+
+// VerifShuffleNodes runs shuffleNodes and returns the names in their new order.
+func VerifShuffleNodes(in []VerifSelNode) []string {
+	ns := verifSelStates(in)
+	shuffleNodes(ns)
+	return verifSelNames(ns)
+}
+
+// VerifKRandomNodes runs kRandomNodes with an exclusion rule given by name (nil: no rule); it returns
+// the chosen names and the order of the input afterwards.
+func VerifKRandomNodes(k int, in []VerifSelNode, excluded map[string]bool) ([]string, []string) {
+	ns := verifSelStates(in)
+	var f func(*nodeState) bool
+	if excluded != nil {
+		f = func(n *nodeState) bool { return excluded[n.Name] }
+	}
+	picked := kRandomNodes(k, ns, f)
+	out := make([]string, len(picked))
+	for i, n := range picked {
+		out[i] = n.Name
+	}
+	return out, verifSelNames(ns)
+}
+
+// VerifRandomOffset wraps randomOffset.
+func VerifRandomOffset(n int) int { return randomOffset(n) }
